@@ -48,13 +48,25 @@ def prevHashOf (env : Env) (l : Ledger) : Hash :=
   | some b => env.hash b
   | none => zeroHash
 
-/-- the block `AddBlock(timestamp, transactions, newAddresses)` builds: `Filter` and `RemovedAddresses`
-    are read BEFORE the previous tip is applied -/
-def mkBlock (env : Env) (l : Ledger) (ts : Int) (txs : List Tx) (newAddresses : List String) : Block :=
-  { prevHash := prevHashOf env l, added := l.reg.filter newAddresses, removed := l.reg.pending, ts := ts, txs := txs }
+/-- `confirmLastBlock`: apply the tip to outputs and registry (the chain itself is unchanged) -/
+def confirmLast (l : Ledger) : Except String Ledger :=
+  match l.blocks.getLast? with
+  | none => .ok l
+  | some last =>
+    match l.utxos.update last.txs last.ts with
+    | .error e => .error ("add-utxo-failed:" ++ e)
+    | .ok u' => .ok ⟨l.blocks, u', l.reg.update last.addedL last.removedL⟩
 
+/-- the block `AddBlock(timestamp, transactions, newAddresses)` builds on the state `c` in which the
+    previous tip has been confirmed (after the fix: commit): `Filter` and `RemovedAddresses` are read there -/
+def mkBlock (env : Env) (c : Ledger) (ts : Int) (txs : List Tx) (newAddresses : List String) : Block :=
+  { prevHash := prevHashOf env c, added := c.reg.filter newAddresses, removed := c.reg.pending, ts := ts, txs := txs }
+
+/-- `AddBlock`: confirm the previous tip, build the block from the confirmed state, append -/
 def addBlock (env : Env) (l : Ledger) (ts : Int) (txs : List Tx) (newAddresses : List String) : Except String Ledger :=
-  l.addBlockRaw (mkBlock env l ts txs newAddresses)
+  match l.confirmLast with
+  | .error e => .error e
+  | .ok c => .ok { c with blocks := c.blocks ++ [mkBlock env c ts txs newAddresses] }
 
 /-- `Blocks(startingBlockHeight)` -/
 def page (pageSize : Nat) (blocks : List Block) (h : Nat) : List Block :=
